@@ -164,8 +164,10 @@ impl MatchLevel for &TopicFilterLevel {
 fn match_level_impl(
     subset_level: &TopicFilterLevel,
     superset_level: &TopicFilterLevel,
-    _index: usize,
+    index: usize,
 ) -> bool {
+    // a wildcard in the first level does not cover a first level starting with `$`
+    let is_system_level = index == 0 && matches!(subset_level, TopicFilterLevel::System(_));
     match superset_level {
         TopicFilterLevel::Normal(rhs) => {
             matches!(subset_level, TopicFilterLevel::Normal(lhs) if lhs == rhs)
@@ -174,8 +176,10 @@ fn match_level_impl(
             matches!(subset_level, TopicFilterLevel::System(lhs) if lhs == rhs)
         }
         TopicFilterLevel::Blank => *subset_level == TopicFilterLevel::Blank,
-        TopicFilterLevel::SingleWildcard => *subset_level != TopicFilterLevel::MultiWildcard,
-        TopicFilterLevel::MultiWildcard => true,
+        TopicFilterLevel::SingleWildcard => {
+            *subset_level != TopicFilterLevel::MultiWildcard && !is_system_level
+        }
+        TopicFilterLevel::MultiWildcard => !is_system_level,
     }
 }
 
